@@ -20,7 +20,7 @@ pub enum Req {
     Pull { sub: String, max: i32, ri: bool },
     Ack { sub: String, ack_ids: Vec<String> },
     Modify { sub: String, ack_ids: Vec<String>, secs: i32 },
-    StreamOpen { sub: String, max_out: i32 },
+    StreamOpen { sub: String, max_out: i64 },
 }
 
 #[derive(Clone, Debug, Serialize, Deserialize, PartialEq)]
@@ -97,6 +97,8 @@ pub enum EvKind {
     StreamEnd { call: CallId, code: Option<i32> },
     StreamSend { call: CallId, acks: Vec<String>, mods: Vec<(String, i32)> },
     StreamCloseSend { call: CallId },
+    /// C17: a control message sent with arbitrary fields
+    StreamSendRaw { call: CallId, subscription: String, max_out: i64, max_bytes: i64, acks: Vec<String>, mod_ids: Vec<String>, mod_secs: Vec<i32> },
     /// quiescent point: nothing runnable; stats of every known subscription name
     Qp { stats: Vec<SubStat> },
     /// the harness moved the clock (Advance / GoTo)
@@ -109,6 +111,8 @@ pub enum EvKind {
     PullAllEnd { sub: String, call: CallId },
     /// the interpreter skipped an op (unresolvable reference)
     Skipped { op: usize },
+    /// C16/C17: the complete observable state, rendered canonically
+    Snapshot { state: String },
 }
 
 #[derive(Clone, Debug, Serialize, Deserialize, PartialEq)]
